@@ -22,6 +22,15 @@ SEEDED = os.path.join(VERIF, "seeded")
 SCRATCH = "/tmp/seeded-confirm"
 
 
+def pick_patch(d, cwd):
+    """patch.diff as delivered; patch.rebased.diff (same change carried over by hand) when /repo's HEAD has moved under it"""
+    for name in ("patch.diff", "patch.rebased.diff"):
+        p = os.path.join(d, name)
+        if os.path.exists(p) and subprocess.run(["git", "apply", "--check", p], cwd=cwd, capture_output=True).returncode == 0:
+            return p
+    return os.path.join(d, "patch.diff")
+
+
 def sh(cmd, cwd=None, timeout=3600, env=None):
     p = subprocess.run(cmd, cwd=cwd, shell=isinstance(cmd, str), capture_output=True, text=True, timeout=timeout, env=env)
     return p.returncode, p.stdout + p.stderr
@@ -53,7 +62,8 @@ def test_suite(cwd):
 def confirm(demo_dir, sid, prop):
     ensure_scratch()
     meta = {"id": sid, "property": prop, "source": demo_dir, "confirmed_at": time.strftime("%Y-%m-%dT%H:%M:%SZ", time.gmtime()), "ran": []}
-    patch = os.path.join(demo_dir, "patch.diff")
+    patch = pick_patch(demo_dir, SCRATCH)
+    meta["patch_used"] = os.path.basename(patch)
     work_demo = os.path.join(SCRATCH, "demo", os.path.basename(demo_dir))
     shutil.rmtree(os.path.join(SCRATCH, "demo"), ignore_errors=True)
     shutil.copytree(demo_dir, work_demo)
@@ -103,7 +113,7 @@ def evaluate(sid, tier, checks):
     rc, out = sh(["git", "-C", "/repo", "status", "--porcelain"])
     if out.strip():
         raise SystemExit("/repo is not clean:\n" + out)
-    rc, out = sh(["git", "-C", "/repo", "apply", os.path.join(dst, "patch.diff")])
+    rc, out = sh(["git", "-C", "/repo", "apply", pick_patch(dst, "/repo")])
     if rc != 0:
         raise SystemExit("patch does not apply to /repo: " + out)
     try:
